@@ -431,6 +431,50 @@ impl Exec {
         Ok(t)
     }
 
+    /// number of satisfying assignments over `n` variables of the diagram below `r`, or None when the
+    /// diagram mentions a variable above `n`, is malformed, or is larger than 200000 nodes
+    pub fn count_graph(&self, r: Ref, n: u32) -> Option<u128> {
+        let st = self.bdd().storage();
+        let cap = st.capacity();
+        let total: u128 = 1u128 << n;
+        // iterative post-order; memo: cell -> count of the regular function rooted there
+        let mut memo: HashMap<usize, u128> = HashMap::new();
+        memo.insert(1, total);
+        let mut stack = vec![r.index() as usize];
+        while let Some(&i) = stack.last() {
+            if memo.contains_key(&i) {
+                stack.pop();
+                continue;
+            }
+            if i == 0 || i >= cap || !st.cell_flags(i).0 || memo.len() > 200_000 {
+                return None;
+            }
+            let nd = st.cell_value(i);
+            if nd.variable == 0 || nd.variable > n {
+                return None;
+            }
+            let (lo, hi) = (nd.low.index() as usize, nd.high.index() as usize);
+            match (memo.get(&lo).copied(), memo.get(&hi).copied()) {
+                (Some(cl), Some(ch)) => {
+                    let cl = if nd.low.is_negated() { total - cl } else { cl };
+                    let ch = if nd.high.is_negated() { total - ch } else { ch };
+                    memo.insert(i, cl / 2 + ch / 2 + (cl % 2 + ch % 2) / 2);
+                    stack.pop();
+                }
+                (a, b) => {
+                    if a.is_none() {
+                        stack.push(lo);
+                    }
+                    if b.is_none() {
+                        stack.push(hi);
+                    }
+                }
+            }
+        }
+        let c = memo[&(r.index() as usize)];
+        Some(if r.is_negated() { total - c } else { c })
+    }
+
     /// value of the diagram below `r` under the assignment `e` (bit v-1 = variable v)
     pub fn eval_at(&self, r: Ref, e: u64) -> Result<bool, String> {
         let st = self.bdd().storage();
@@ -1477,6 +1521,14 @@ impl Exec {
                                     self.fail(&["C13"], format!("sat_count({:#x}, {}) = {}, expected {}", x, n, s, want));
                                 }
                                 self.nontrivial.insert(fnv1a(&format!("satcount {:x} {}", x, n)));
+                            }
+                        }
+                        if tt.is_none() && n <= 120 {
+                            // own count over the stored graph (memo keyed by the full cell index)
+                            if let Some(want) = self.count_graph(rf, n as u32) {
+                                if s != want.to_string() {
+                                    self.fail(&["C13"], format!("sat_count({}, {}) = {}, counting the stored diagram gives {}", show_ref(rf), n, s, want));
+                                }
                             }
                         }
                         s
